@@ -225,12 +225,12 @@ func splitAll(b []byte) []unit {
 // TLS fixtures
 
 type fixtures struct {
-	caPool     *x509.CertPool
-	caPEM      []byte
-	valid      tls.Certificate // valid for "example.org" (and localhost)
-	otherName  tls.Certificate // valid chain, but only for "other.example"
-	unknownCA  tls.Certificate // right name, signed by a CA nobody trusts
-	expired    tls.Certificate // right name and CA, expired
+	caPool    *x509.CertPool
+	caPEM     []byte
+	valid     tls.Certificate // valid for "example.org" (and localhost)
+	otherName tls.Certificate // valid chain, but only for "other.example"
+	unknownCA tls.Certificate // right name, signed by a CA nobody trusts
+	expired   tls.Certificate // right name and CA, expired
 }
 
 var (
@@ -330,14 +330,14 @@ const (
 )
 
 type srvConn struct {
-	raw    *vnet.Conn
-	rw     io.ReadWriter
-	sp     *splitter
-	inTLS  bool
-	k      int     // index of this connection at its listener
-	Units  []unit  // every unit read from the client, in order
-	Sent   []string
-	closed bool
+	raw      *vnet.Conn
+	rw       io.ReadWriter
+	sp       *splitter
+	inTLS    bool
+	k        int    // index of this connection at its listener
+	Units    []unit // every unit read from the client, in order
+	Sent     []string
+	closed   bool
 	streamID string
 	pending  []unit // units handed back for the established-phase handler
 }
